@@ -227,15 +227,47 @@ def r_map_end_wrapper(ctx: Ctx, rule: str) -> None:
     rep = ctx.rep
     rep.rule(rule, "in the end-callback wrapper the semaphore release comes first, exactly once, with no may-raise, suspending or user step "
                    "before it, and the user's end callback is then executed with the task id")
+    from ..cfg import bind_args, strip_cast
+
     for outer in ctx.pool_funcs("_get_map_end_callback"):
         sc = ctx.an.scope(outer)
-        inner = list(sc.nested.values())
-        rep.floor(rule, "nested wrapper function", len(inner), 1)
+        inner = [(x, None, None) for x in sc.nested.values()]
         rets = [n for n in ast.walk(outer.node) if isinstance(n, ast.Return) and n.value is not None]
-        for f in inner:
-            rep.ob(rule, "the factory returns the wrapper", any(isinstance(r.value, ast.Name) and r.value.id == f.name for r in rets), func=outer, construct=rets[0] if rets else "(no return)")
+        if not inner:
+            # the wrapper may be built by a helper spliced into the factory: `return helper(cb, sem.release)`
+            for r in rets:
+                v = ctx.vals.resolve(outer, r.value)
+                t = ctx.an.spliced_at.get(id(v)) if isinstance(v, ast.Call) else None
+                if t is not None:
+                    env = bind_args(v, t, outer, None)
+                    trets = [x.value for x in ctx.an.scope(t)._own_nodes() if isinstance(x, ast.Return) and x.value is not None]
+                    for nf in ctx.an.scope(t).nested.values():
+                        if any(isinstance(x, ast.Name) and x.id == nf.name for x in trets):
+                            inner.append((nf, t, env))
+        rep.floor(rule, "nested wrapper function", len(inner), 1)
+
+        def through_helper(helper, env, e):
+            """an expression of the helper's frame in the factory's terms (its parameters are what the factory passed)"""
+            if helper is not None and isinstance(e, ast.Name) and e.id in env and e.id in ctx.an.scope(helper).params:
+                return outer, env[e.id][1]
+            return (helper or outer), e
+
+        for f, helper, henv in inner:
+            if helper is None:
+                rep.ob(rule, "the factory returns the wrapper", any(isinstance(r.value, ast.Name) and r.value.id == f.name for r in rets), func=outer, construct=rets[0] if rets else "(no return)")
             g = ctx.an.cfg(f)
-            rel = ctx.nodes(f, lambda n: any(e.kind == "release" and e.path == "<map_semaphore>" for e in ctx.eff.of_node(n)))
+
+            def is_release(n, helper=helper, henv=henv) -> bool:
+                if any(e.kind == "release" and e.path == "<map_semaphore>" for e in ctx.eff.of_node(n)):
+                    return True
+                # a bound `map_semaphore.release` handed to the helper and called there under the parameter's name
+                if helper is not None and n.op == "call" and isinstance(n.ast.func, ast.Name) and not n.ast.args and not n.ast.keywords:
+                    fr, e = through_helper(helper, henv, n.ast.func)
+                    e = strip_cast(e)
+                    return fr is outer and isinstance(e, ast.Attribute) and e.attr == "release" and ctx.eff.paths(outer).of(e.value) == "<map_semaphore>"
+                return False
+
+            rel = ctx.nodes(f, is_release)
             rep.floor(rule, "release in the wrapper", len(ctx.distinct_sites(rel)), 1)
             res = count_paths(ctx.an, f, lambda n: n in rel, interproc=False)
             for key, counts in sorted(res.items(), key=str):
@@ -253,6 +285,8 @@ def r_map_end_wrapper(ctx: Ctx, rule: str) -> None:
                 fn = ctx.call_arg(c.ast, t, t.param_names()[0])
                 args = ctx.call_arg(c.ast, t, t.param_names()[1])
                 args = ctx.vals.resolve(c.func, args) if args is not None else None
-                rep.ob(rule, "the wrapped callback is the request's end callback", expr_role(ctx, f, fn) == "END", node=c)
+                ffr, fexpr = through_helper(helper, henv, fn) if isinstance(fn, ast.Name) else (f, fn)
+                role = expr_role(ctx, f, fn) if helper is None else expr_role(ctx, ffr, fexpr)
+                rep.ob(rule, "the wrapped callback is the request's end callback", role == "END", node=c)
                 ok = isinstance(args, ast.Tuple) and len(args.elts) == 1 and expr_role(ctx, f, args.elts[0]) == "ID"
                 rep.ob(rule, "the wrapped callback receives the task id", ok, node=c)
